@@ -149,7 +149,7 @@ def run_kani_group(pid, gi, harnesses, flags, jobs, timeout_s, mem_gb, logdir):
         unsupported = [c for c in failed if c["category"] == "unsupported_construct"]
         real_fail = [c for c in failed if c not in unwind_fail and c not in unsupported]
         n_decided = sum(1 for c in checks if c["status"] in ("Success", "Failure", "Satisfied", "Unsatisfiable", "Unreachable"))
-        st = stats.get(h, {})
+        st = stats.get(h) or {}
         entry = {
             "status": r["status"],
             "duration_s": r.get("duration_ms", 0) / 1000.0,
